@@ -96,12 +96,41 @@ def rollback(repo: Repo) -> RuleRun:
     tests = [n for n in g.stmt_nodes() if n.kind == "if" and "improvement" in ast.unparse(n.stmt.test)]
     r.require(len(tests) == 1, "optimize_clamp: 'if reporter.improvement <= 0' not found")
     t = tests[0].stmt.test
-    sign_ok = isinstance(t, ast.Compare) and isinstance(t.ops[0], (ast.LtE, ast.Lt)) and isinstance(t.comparators[0], ast.Constant) and t.comparators[0].value == 0 and ast.unparse(t.left).endswith(".improvement")
-    r.check(sign_ok, fn, f"rollback when '{ast.unparse(t)}'", f"the rollback test is '{ast.unparse(t)}': it must fire when the grid quality did not improve (improvement <= 0)", tests[0].stmt, key="rollback-sign")
+    # which branch restores? it must be taken for improvement <= 0 and only then: the test is evaluated for -1, 0, +1
+    from ..peval import Evaluator as _Ev, NotEvaluable as _NE
+
+    imp_attr = [x for x in ast.walk(t) if isinstance(x, ast.Attribute) and x.attr == "improvement"]
+    r.require(len(imp_attr) == 1 and attr_chain(imp_attr[0]) is not None, "rollback test does not read <reporter>.improvement")
+    chain = attr_chain(imp_attr[0])
+    restores_in_body = any(is_params(n_) for st_ in tests[0].stmt.body for n_ in g.stmt_nodes() if any(x is n_.stmt for x in ast.walk(st_)))
+    truth = {}
+    for val in (-1, 0, 1):
+        try:
+            ev_ = _Ev(bind={chain: val})
+            truth[val] = bool(ev_.truth(ev_.eval(t), t))
+        except _NE as err:
+            raise AnalysisError(f"optimize_clamp: rollback test '{ast.unparse(t)}' not evaluable: {err}") from err
+    takes_restore = {v: (tv if restores_in_body else not tv) for v, tv in truth.items()}
+    sign_ok = takes_restore[-1] and not takes_restore[1]  # improvement == 0: either is fine (the quality is the same)
+    r.check(sign_ok, fn, f"rollback when the quality got worse, none when it improved ('{ast.unparse(t)}')", f"the rollback test is '{ast.unparse(t)}' (restore branch taken for improvement -1/0/+1: {takes_restore}): it must fire when the grid quality got worse (improvement < 0) and must not when it improved", tests[0].stmt, key="rollback-sign")
+    # improvement = initial grid quality - final grid quality (abstract run of the property)
     imp = repo.func("optimize.iteration.ClampOptimizationData.improvement")
-    rets = [n for n in walk_shallow(imp.node) if isinstance(n, ast.Return)]
-    imp_ok = len(rets) == 1 and isinstance(rets[0].value, ast.BinOp) and isinstance(rets[0].value.op, ast.Sub) and "initial" in ast.unparse(rets[0].value.left) and "final" in ast.unparse(rets[0].value.right) and "grid" in ast.unparse(rets[0].value)
-    r.check(imp_ok, imp, "improvement = grid_initial - grid_final", f"ClampOptimizationData.improvement is '{ast.unparse(rets[0].value) if rets else '?'}', not grid_initial - grid_final", imp.node, key="improvement-def")
+    from ..peval import Obj as _Obj
+
+    def _imp(gi, gf):
+        d_ = _Obj("data", cls=imp.cls)
+        for nm_, v_ in (("grid_initial", gi), ("grid_final", gf), ("junction_initial", 1000), ("junction_final", 1), ("rolled_back", False), ("skipped", False)):
+            d_.set(nm_, v_)
+        try:
+            ev2 = _Ev(repo=repo, module=imp.module)
+            ev2.float_arith = True
+            return ev2.call_funcinfo(imp, [d_])
+        except _NE as err:
+            raise AnalysisError(f"ClampOptimizationData.improvement not evaluable: {err}") from err
+
+    vals = [_imp(10, 4), _imp(4, 10), _imp(7, 7)]
+    imp_ok = vals[0] is not None and vals[1] is not None and vals[0] > 0 and vals[1] < 0 and vals[2] <= 0
+    r.check(imp_ok, imp, "improvement > 0 iff the grid quality value went down", f"ClampOptimizationData.improvement gives {vals} for grid quality 10->4, 4->10, 7->7 (junction quality 1000->1 in all three): it must be positive exactly when the GRID quality improved", imp.node, key="improvement-def")
     body_first = g.nodes_of(tests[0].stmt.body[0])
     r.require(bool(body_first), "rollback branch empty")
     check_from(body_first[0], "no-improvement", tests[0].stmt)
